@@ -54,6 +54,13 @@ theorem sat_ite {c : Prop} [Decidable c] {t e : M α} (ht : c → SatAt n af p r
   · rw [if_pos h]; exact ht h
   · rw [if_neg h]; exact he h
 
+theorem sat_refGuard {checked inRange : Bool} {e : Err} {site : Nat} (h : checked = true) :
+    SatAt n af p r 0 (refGuard checked inRange e site) := by
+  unfold refGuard
+  by_cases hi : inRange = true
+  · rw [if_pos hi]; exact sat_pure
+  · rw [if_neg hi, if_pos h]; exact sat_fail
+
 theorem sat_outOfFuel (h : af = true) : SatAt n af p r d (outOfFuel : M α) := ⟨fun _ _ _ => h⟩
 
 /-- `adv 1` needs one byte of room -/
